@@ -20,6 +20,9 @@ type Reader struct {
 
 const defaultSize = 4096
 
+// maxBulkSize is the protocol limit of a bulk string (512 MiB)
+const maxBulkSize = 512 * 1024 * 1024
+
 func NewReader(rd io.Reader) *Reader {
 	return &Reader{
 		reader: rd,
@@ -254,6 +257,9 @@ func (r *Reader) readBulk() (string, error) {
 	l, err := r.readInteger()
 	if err != nil {
 		return "", err
+	}
+	if l < 0 || l > maxBulkSize {
+		return "", ErrInvalidRequestExceptedBulk
 	}
 	err = r.readByteN(l)
 	if err != nil {
